@@ -43,6 +43,19 @@ class MachineryFault(Exception):
     """The checking machinery itself is broken (exit 2) — never a property violation."""
 
 
+class ImplementationStall(BaseException):  # not an Exception: harness code that records the
+    # implementation's exceptions (`except Exception`) must not swallow it
+    """raised in the main thread by the watchdog (main.py) when the implementation under test has not
+    returned for a long time (e.g. a loop that no longer terminates after a change to the code)"""
+
+
+_PROGRESS = [time.time()]
+
+
+def heartbeat() -> None:
+    _PROGRESS[0] = time.time()
+
+
 # --------------------------------------------------------------------------- exact numbers
 
 
@@ -155,6 +168,7 @@ class Model:
 
     def call(self, req: dict):
         self.calls += 1
+        heartbeat()
         assert self.p.stdin and self.p.stdout
         self.p.stdin.write(json.dumps(req) + "\n")
         self.p.stdin.flush()
@@ -478,10 +492,12 @@ class Ctx:
 
     # -- coverage bookkeeping
     def count(self, branch: str, k: int = 1) -> None:
+        heartbeat()
         self.branches[branch] = self.branches.get(branch, 0) + k
 
     def case(self, key, nontrivial: bool, sample=None) -> None:
         """register one evaluated case; `key` identifies it for distinctness"""
+        heartbeat()
         self.evaluations += 1
         if nontrivial:
             self.nontrivial.add(key if isinstance(key, (str, int, tuple)) else json.dumps(key, sort_keys=True))
@@ -627,6 +643,7 @@ def ddmin(items: list, fails, max_tests: int = 400) -> list:
         for i in range(0, len(cur), chunk):
             cand = cur[:i] + cur[i + chunk:]
             tests += 1
+            heartbeat()
             try:
                 bad = bool(cand) and fails(cand)
             except MachineryFault:
